@@ -13,7 +13,8 @@ def main(tier):
     c.set_deadline(int(os.environ.get('C12_DEADLINE', '600' if quick else '2400')))
     libdir = os.path.join(c.scratch, 'lib')
     twinlen = 1 if quick else 2
-    env = {'C12_MAXLEN': str(maxlen), 'C12_TWINLEN': str(twinlen), 'C12_LIBDIR': libdir, 'VERIF_TIER': tier}
+    singles = '0' if quick else '1'
+    env = {'C12_MAXLEN': str(maxlen), 'C12_TWINLEN': str(twinlen), 'C12_QUERY_SINGLES': singles, 'C12_LIBDIR': libdir, 'VERIF_TIER': tier}
     env_asan = {'C12_MAXLEN': '1', 'C12_TWINLEN': '1', 'C12_LIBDIR': libdir, 'VERIF_TIER': tier}
     c.build('plain', ['c12'])
     c.build('asan', ['c12'])
@@ -30,6 +31,12 @@ def main(tier):
     twin = c.run_family('plain', 'c12', 'twin', env=env, chunk=3 if quick else 16, per_case_timeout=60)
     c.run_family('asan', 'c12', 'twin_asan', env=env_asan, lo=33, chunk=3, per_case_timeout=120)  # second half = the destroying mode (33 = 1 + 32 histories)
 
+    # queries are inert: every getter / lookup of every long-lived service instance (present, absent, out-of-range arguments),
+    # inserted at every position of every history of length <= 1; quick: 9 sweeps (bisected on anomaly), thorough: + every
+    # single getter; under ASan: all getters at once
+    qf = c.run_family('plain', 'c12', 'query', env=env, chunk=9 if quick else 41, per_case_timeout=60)
+    c.run_family('asan', 'c12', 'query_asan', env=env_asan, chunk=2, per_case_timeout=120)
+
     harness = [v for v in c.raw if v['sig'].startswith('HARNESS:')]
     c.raw = [v for v in c.raw if not v['sig'].startswith('HARNESS:')]
     for v in harness[:10]:
@@ -39,7 +46,7 @@ def main(tier):
         c.notes.append('harness errors: %s' % sorted(set(v['sig'] for v in harness)))
 
     nops = 27
-    pairs = fam['evaluated'] * nops + twin['evaluated'] * 32
+    pairs = fam['evaluated'] * nops + twin['evaluated'] * 32 + qf['evaluated'] * nops
     states = int(c.counters.get('states', 0))
     transitions = int(c.counters.get('transitions', 0))
     rc = c.finish(
@@ -57,6 +64,7 @@ def main(tier):
             'a service probe whose ARGUMENT differs from the fresh one (it came out of an earlier, already judged, call of the history) is judged in the counterfactual world only',
             'Importer::resolveImports and Annotator::assignAllIds mutate their model by contract: no frame condition is judged for them; the annotator probe works on a private model with a fresh Annotator',
             'twin family: alphabet of 32 operations = 16 service/parser calls on a document and on its conflicting twin (every name kept, every meaning changed: units definitions, variable units and initial values, moved ids, import references and imported file content, numbers in the math); histories of length <= %d over it, each in two modes (caller keeps / destroys all models and results after each history op), each followed by all 32 operations; the Importer library is documented instance state and is not part of the resolve observation' % twinlen,
+            'query family: 73 getters/lookups in 9 groups (Importer library by key / by index, Logger getters of all 7 loggers, Annotator lookups known / unknown-wrong-kind-out-of-range / enumerations, Analyser getters and external-variable lookups, Generator getters and repeated code, strict flags) on a world with a long-lived Annotator holding a model and one registered external variable; a history with a query inserted (before the op, after the op, alone) must be followed by exactly the probe observations, findings, crashes AND instance state (importer library with keys, every issue list, external variables, analyser/generator models, annotator ids) of the history without it; the query Annotator\'s own issue list is the documented result channel of its lookups and is excluded',
             'generate probes (C, Python, C with power operator) all work on ONE AnalyserModel per world, obtained from an own Analyser and held; its dump includes every equation AST with the parent-link consistency of every node',
             'the asan sub-families cover histories of length <= 1 only (twin family: the destroying mode only)',
         ],
